@@ -127,14 +127,14 @@ Proof. exact path_pipe_fields_law. Qed.
 Print Assumptions C01_path_concat.
 
 (* (4) towards C01_full: on the state-free fragment F0 (identity, scalar literals, pipe, comma, empty, t[], t.k,
-   if/else, try/catch, error, length, `src as $x | body`, $x, [q], reduce, foreach, //) the demand-driven CPS semantics IS the eager
+   if/else, try/catch, error, length, `src as $x | body`, $x, [q], reduce, foreach, //, label/break) the demand-driven CPS semantics IS the eager
    list semantics den0, written clause by clause like coq/c01vm/Den.v (which coq/c01vm proves equal to the
    compiled code running on the VM): for every continuation, hence for every observation *)
 Theorem C01_sem_is_list_semantics_F0 : forall bs rs,
   lookup_builtin bs (codes "empty") 0 = None -> lookup_builtin bs (codes "error") 0 = None ->
   lookup_builtin bs (codes "length") 0 = None ->
   forall q, ok0 q -> forall (n : nat) rho v k s (Inv : sst -> Prop), (need q <= n)%nat -> vars_only rho ->
-    inv_ok rs Inv -> K_ok Inv k -> Inv s ->
+    inv_ok rs Inv -> K_ok Inv k -> (forall s', Inv s' -> (lab_bound rho <= nextid s')%N) -> Inv s ->
     eval_q bs n rho (emb q) (plain v) None k s = run_res k (den0 rs q rho v) s.
 Proof. exact sem_den0. Qed.
 Print Assumptions C01_sem_is_list_semantics_F0.
